@@ -753,6 +753,12 @@ pub fn hook_snake(name: &str) -> String { crate::generator::rasn::Rasn::default(
 pub fn hook_type_table(ty: &ASN1Type, name: &str, parent: &str, rec: bool) -> Result<String, String> {
     crate::generator::rasn::Rasn::default().constraints_and_type_name(ty, name, parent, rec).map(|(_, t)| t.to_string()).map_err(|e| format!("{e:?}"))
 }
+#[cfg(not(kani))]
+pub fn hook_format_default_methods(members: &Vec<crate::intermediate::types::SequenceOrSetMember>, parent: &str) -> Result<String, String> {
+    crate::generator::rasn::Rasn::default().format_default_methods(members, parent).map(|t| t.to_string()).map_err(|e| format!("{e:?}"))
+}
+#[cfg(not(kani))]
+pub fn hook_default_method_name(parent: &str, field: &str) -> String { crate::generator::rasn::Rasn::default().default_method_name(parent, field).to_string() }
 /// accessors for the native replay of the Verus unit GEN_enum_members
 #[cfg(not(kani))]
 pub fn hook_format_enum_members(e: &crate::intermediate::types::Enumerated) -> Result<String, String> { crate::generator::rasn::Rasn::default().format_enum_members(e).map(|t| t.to_string()).map_err(|e| format!("{e:?}")) }
